@@ -26,7 +26,7 @@ Definition inv_order s : Prop :=
 
 Lemma step_inv_order c s e : inv_order s -> inv_order (bstep c s e).
 Proof.
-  unfold inv_order. intros [H1 H2]. destruct e as [i|ok|ok| |ok|j]; simpl.
+  unfold inv_order. intros [H1 H2]. destruct e as [i|ok|ok| |ok|j|sk]; simpl.
   - destruct (_ <? qcap c); simpl; split; auto. rewrite H1, app_assoc. reflexivity.
   - destruct (blocked s); [auto|]. destruct (pc s); [|auto]. destruct (queue s) as [|i q] eqn:Q; [rewrite Q; auto|].
     destruct ok; simpl.
@@ -40,6 +40,9 @@ Proof.
     destruct (fixed_S28 c && (cur s =? 0)); [simpl; auto|].
     destruct ok; simpl; [|auto]. split; auto. rewrite H2, concat_app. simpl. now rewrite !app_nil_r.
   - auto.
+  - destruct (blocked s); [auto|]. destruct (pc s); [|auto]. destruct (queue s) eqn:Q; [|rewrite Q; auto].
+    destruct (fixed_S35 c && (0 <? cur s) && sk); [|rewrite Q; auto]. simpl. rewrite app_nil_r in *.
+    split; auto. rewrite H2, concat_app. simpl. now rewrite !app_nil_r.
 Qed.
 
 Lemma run_inv_order c es : inv_order (brun c es).
@@ -57,13 +60,15 @@ Proof. intros H. simpl. destruct (N.ltb_spec (N.of_nat (length (queue s))) (qcap
 Definition inv_cap c s : Prop := N.of_nat (length (queue s)) <= qcap c.
 Lemma step_inv_cap c s e : inv_cap c s -> inv_cap c (bstep c s e).
 Proof.
-  unfold inv_cap. intros H. destruct e as [i|ok|ok| |ok|j]; simpl; auto.
+  unfold inv_cap. intros H. destruct e as [i|ok|ok| |ok|j|sk]; simpl; auto.
   - destruct (N.ltb_spec (N.of_nat (length (queue s))) (qcap c)); simpl; auto. rewrite app_length. simpl. lia.
   - destruct (blocked s); [auto|]. destruct (pc s); [|auto]. destruct (queue s) as [|i q] eqn:Q; [rewrite Q; auto|].
     simpl in H. destruct ok; simpl; lia.
   - destruct (blocked s); [auto|]. destruct (pc s); [auto|]. destruct ok; simpl; auto. destruct (t_stop_drain _); auto.
   - destruct (blocked s); [auto|]. destruct (pc s); [|auto]. destruct (t_chan _); [|auto].
     destruct (fixed_S28 c && (cur s =? 0)); [auto|]. destruct ok; auto.
+  - destruct (blocked s); [auto|]. destruct (pc s); [|auto]. destruct (queue s) eqn:Q; [|rewrite Q; auto].
+    destruct (fixed_S35 c && (0 <? cur s) && sk); [simpl; lia|rewrite Q; auto].
 Qed.
 Lemma run_inv_cap c es : inv_cap c (brun c es).
 Proof. apply run_inv; [apply step_inv_cap|]. unfold inv_cap; simpl; lia. Qed.
@@ -72,7 +77,7 @@ Proof. apply run_inv; [apply step_inv_cap|]. unfold inv_cap; simpl; lia. Qed.
 Definition inv_cur s : Prop := blocked s = false -> cur s = N.of_nat (length (pend s)).
 Lemma step_inv_cur c s e : inv_cur s -> inv_cur (bstep c s e).
 Proof.
-  unfold inv_cur. intros H. destruct e as [i|ok|ok| |ok|j]; simpl; auto.
+  unfold inv_cur. intros H. destruct e as [i|ok|ok| |ok|j|sk]; simpl; auto.
   - destruct (_ <? qcap c); simpl; auto.
   - destruct (blocked s) eqn:B; [intros; congruence|]. destruct (pc s); [|rewrite B; auto].
     destruct (queue s) as [|i q] eqn:Q; [rewrite B; auto|].
@@ -81,6 +86,8 @@ Proof.
     destruct (t_stop_drain (tm s)) as [t2 blk]. simpl. intros ->. reflexivity.
   - destruct (blocked s) eqn:B; [intros; congruence|]. destruct (pc s); [|rewrite B; auto].
     destruct (t_chan _); [|rewrite B; auto]. destruct (fixed_S28 c && (cur s =? 0)); [simpl; auto|]. destruct ok; simpl; auto.
+  - destruct (blocked s) eqn:B; [intros; congruence|]. destruct (pc s); [|rewrite B; auto]. destruct (queue s) eqn:Q; [|rewrite B; auto].
+    destruct (fixed_S35 c && (0 <? cur s) && sk); [simpl; auto|rewrite B; auto].
 Qed.
 Lemma run_inv_cur c es : inv_cur (brun c es).
 Proof. apply run_inv; [apply step_inv_cur|]. intros _; reflexivity. Qed.
@@ -96,7 +103,7 @@ Proof. unfold armed, t_fire. destruct t as [[|] [|]]; simpl; tauto. Qed.
 
 Lemma step_inv_timer c s e : fixed_S2 c = true -> inv_timer s -> inv_timer (bstep c s e).
 Proof.
-  unfold inv_timer. intros F (B & P & T). destruct e as [i|ok|ok| |ok|j]; simpl.
+  unfold inv_timer. intros F (B & P & T). destruct e as [i|ok|ok| |ok|j|sk]; simpl.
   - destruct (_ <? qcap c); simpl; auto.
   - rewrite B. destruct (pc s) eqn:PC; [|auto]. destruct (queue s) as [|i q]; [rewrite PC; auto|].
     assert (T1 : armed (if cur s =? 0 then t_reset (tm s) else tm s)).
@@ -118,6 +125,8 @@ Proof.
     + repeat split; auto; try discriminate; intros; lia.
     + rewrite F. repeat split; auto; try discriminate. intros _. apply armed_reset.
   - simpl. auto.
+  - rewrite B. destruct (pc s) eqn:PC; [|rewrite PC; auto]. destruct (queue s) eqn:Q; [|rewrite PC; auto].
+    destruct (fixed_S35 c && (0 <? cur s) && sk); [|rewrite PC; auto]. simpl. repeat split; auto; try discriminate; intros; lia.
 Qed.
 
 Lemma never_blocks c es : fixed_S2 c = true -> blocked (brun c es : bst A) = false.
@@ -143,7 +152,7 @@ Definition no_age_failure (es : list (bev A)) : bool :=
 Lemma step_inv_timer_unfixed c s e : (match e with OnTimer false => false | _ => true end) = true ->
   inv_timer s -> inv_timer (bstep c s e).
 Proof.
-  unfold inv_timer. intros E (B & P & T). destruct e as [i|ok|ok| |ok|j]; simpl.
+  unfold inv_timer. intros E (B & P & T). destruct e as [i|ok|ok| |ok|j|sk]; simpl.
   - destruct (_ <? qcap c); simpl; auto.
   - rewrite B. destruct (pc s) eqn:PC; [|auto]. destruct (queue s) as [|i q]; [rewrite PC; auto|].
     assert (T1 : armed (if cur s =? 0 then t_reset (tm s) else tm s)).
@@ -163,6 +172,8 @@ Proof.
       repeat split; auto; try discriminate; intros; lia. }
     simpl. repeat split; auto; try discriminate; intros; lia.
   - simpl. auto.
+  - rewrite B. destruct (pc s) eqn:PC; [|rewrite PC; auto]. destruct (queue s) eqn:Q; [|rewrite PC; auto].
+    destruct (fixed_S35 c && (0 <? cur s) && sk); [|rewrite PC; auto]. simpl. repeat split; auto; try discriminate; intros; lia.
 Qed.
 
 Lemma never_blocks_unfixed_partial c es : no_age_failure es = true -> blocked (brun c es : bst A) = false.
@@ -186,7 +197,7 @@ Qed.
 (* between the Add/Rm that reaches the size limit and the commit the worker does nothing else *)
 Lemma only_commit_follows c s e : blocked s = false -> pc s = PCommit -> pc (bstep c s e) = PIdle -> exists ok, e = SizeCommit ok.
 Proof.
-  intros B P. destruct e as [j|ok|ok| |ok|j']; simpl; rewrite ?B, ?P; try congruence; eauto.
+  intros B P. destruct e as [j|ok|ok| |ok|j'|sk]; simpl; rewrite ?B, ?P; try congruence; eauto.
   destruct (_ <? qcap c); simpl; congruence.
 Qed.
 
@@ -224,7 +235,7 @@ Proof.
   unfold inv_nonempty. intros F IC (B & P & _) H. specialize (IC B).
   assert (NE : 0 < cur s -> pend s <> []).
   { intros C E. rewrite E in IC. simpl in IC. lia. }
-  destruct e as [i|ok|ok| |ok|j]; simpl; auto.
+  destruct e as [i|ok|ok| |ok|j|sk]; simpl; auto.
   - destruct (_ <? qcap c); simpl; auto.
   - rewrite B. destruct (pc s); [|auto]. destruct (queue s) as [|i q]; [auto|]. destruct ok; simpl; auto.
   - rewrite B. destruct (pc s) eqn:PC; [auto|]. destruct ok; simpl; [|auto].
@@ -233,6 +244,10 @@ Proof.
   - rewrite B. destruct (pc s); [|auto]. destruct (t_chan (tm s)); [|auto]. rewrite F. cbn [andb].
     destruct (N.eqb_spec (cur s) 0) as [C0|C0]; [simpl; auto|].
     destruct ok; simpl; [|auto]. apply Forall_app. split; [exact H|]. constructor; [|constructor]. apply NE. lia.
+  - rewrite B. destruct (pc s); [|auto]. destruct (queue s) eqn:Q; [|auto].
+    destruct (fixed_S35 c && (0 <? cur s) && sk) eqn:G; [|auto]. simpl.
+    apply andb_true_iff in G. destruct G as [G _]. apply andb_true_iff in G. destruct G as [_ G]. apply N.ltb_lt in G.
+    apply Forall_app. split; [exact H|]. constructor; [|constructor]. now apply NE.
 Qed.
 
 Lemma never_commits_empty c es : fixed_S2 c = true -> fixed_S28 c = true -> Forall (fun b : list A => b <> []) (committed (brun c es)).
@@ -246,6 +261,30 @@ Proof.
   apply H.
 Qed.
 
+(* ---- Shutdown (fix S35): when the worker finds the closed queue empty it commits the open batch: nothing accepted is lost ---- *)
+Lemma stop_commit_all c s : fixed_S35 c = true -> inv_order s -> inv_cur s -> blocked s = false -> pc s = PIdle -> queue s = [] ->
+  let s1 := bstep c s (StopCommit true) in
+  pend s1 = [] /\ queue s1 = [] /\ accepted s1 = map fst (tlog s1) /\ added (tlog s1) = concat (committed s1).
+Proof.
+  intros F [H1 H2] IC B P Q. specialize (IC B). cbn [bstep]. rewrite B, P, Q, F. cbn [andb]. rewrite andb_true_r.
+  rewrite Q, app_nil_r in H1.
+  destruct (N.ltb_spec 0 (cur s)) as [C|C].
+  - simpl. repeat split; auto. rewrite H2, concat_app. simpl. now rewrite !app_nil_r.
+  - simpl. assert (PE : pend s = []) by (destruct (pend s); [auto|simpl in IC; lia]).
+    rewrite PE, app_nil_r in H2. repeat split; auto.
+Qed.
+
+Lemma shutdown_loses_nothing c (es : list (bev A)) : fixed_S2 c = true -> fixed_S35 c = true ->
+  let s := brun c es in queue s = [] -> pc s = PIdle ->
+  let s1 := bstep c s (StopCommit true) in
+  pend s1 = [] /\ queue s1 = [] /\ accepted s1 = map fst (tlog s1) /\ added (tlog s1) = concat (committed s1).
+Proof.
+  intros F2 F35 s Q P. apply stop_commit_all; auto.
+  - apply run_inv_order.
+  - apply run_inv_cur.
+  - now apply never_blocks.
+Qed.
+
 End BatchLemmas.
 
 (* S2 as it was before the fix: the age-limit commit fails, two more operations arrive, the size commit succeeds,
@@ -255,20 +294,20 @@ Definition s2_schedule : list (bev N) :=
   [Enq 1; Take true; Fire; OnTimer false; Enq 2; Take true; Enq 3; Take true; SizeCommit true; Enq 4; Take true].
 
 Lemma deadlock_before_fix :
-  let s := brun (mk_bcfg 10 3 false false) s2_schedule in blocked s = true /\ queue s = [4] /\ accepted s = [1; 2; 3; 4].
+  let s := brun (mk_bcfg 10 3 false false false) s2_schedule in blocked s = true /\ queue s = [4] /\ accepted s = [1; 2; 3; 4].
 Proof. vm_compute. auto. Qed.
 
 Lemma no_deadlock_after_fix :
-  let s := brun (mk_bcfg 10 3 true true) s2_schedule in blocked s = false /\ queue s = [] /\ committed s = [[1; 2; 3]] /\ pend s = [4].
+  let s := brun (mk_bcfg 10 3 true true true) s2_schedule in blocked s = false /\ queue s = [] /\ committed s = [[1; 2; 3]] /\ pend s = [4].
 Proof. vm_compute. auto. Qed.
 
 Lemma deadlock_before_fix_stmt :
   exists qcap maxsize (es : list (bev N)),
-    let s := brun (mk_bcfg qcap maxsize false false) es in blocked s = true /\ queue s <> [] /\ accepted s = [1; 2; 3; 4].
+    let s := brun (mk_bcfg qcap maxsize false false false) es in blocked s = true /\ queue s <> [] /\ accepted s = [1; 2; 3; 4].
 Proof. exists 10, 3, s2_schedule. vm_compute. repeat split; auto. discriminate. Qed.
 
 Lemma batch_example_l :
-  let s := brun (mk_bcfg 2 2 true true) [Enq 1; Enq 2; Enq 3; Take true; Take true; SizeCommit true; Enq 4] in
+  let s := brun (mk_bcfg 2 2 true true true) [Enq 1; Enq 2; Enq 3; Take true; Take true; SizeCommit true; Enq 4] in
   accepted s = [1; 2; 4] /\ refused s = [3] /\ committed s = [[1; 2]] /\ queue s = [4].
 Proof. vm_compute. auto. Qed.
 
@@ -278,9 +317,23 @@ Proof. vm_compute. auto. Qed.
 Definition s28_schedule : list (bev N) := [Enq 1; Take false; Fire; OnTimer true].
 
 Lemma empty_commit_before_fix :
-  exists qcap maxsize (es : list (bev N)), In [] (committed (brun (mk_bcfg qcap maxsize true false) es)).
+  exists qcap maxsize (es : list (bev N)), In [] (committed (brun (mk_bcfg qcap maxsize true false false) es)).
 Proof. exists 10, 3, s28_schedule. vm_compute. left. reflexivity. Qed.
 
 Lemma no_empty_commit_after_fix :
-  let s := brun (mk_bcfg 10 3 true true) s28_schedule in committed s = [] /\ t_chan (tm s) = false /\ tlog s = [(1, false)].
+  let s := brun (mk_bcfg 10 3 true true true) s28_schedule in committed s = [] /\ t_chan (tm s) = false /\ tlog s = [(1, false)].
+Proof. vm_compute. auto. Qed.
+
+(* S35 as it was before the fix: operation 1 is in the open batch, operation 2 still in the queue, both were accepted;
+   Shutdown: the worker returns, nothing is committed *)
+Definition s35_schedule : list (bev N) := [Enq 1; Take true; Enq 2; StopCommit true].
+Lemma shutdown_drops_accepted_before_fix :
+  exists qcap maxsize (es : list (bev N)),
+    let s := brun (mk_bcfg qcap maxsize true true false) es in accepted s = [1; 2] /\ committed s = [].
+Proof. exists 10, 3, s35_schedule. vm_compute. auto. Qed.
+
+(* after the fix the worker first takes what is queued, then commits *)
+Lemma shutdown_commits_after_fix :
+  let s := brun (mk_bcfg 10 3 true true true) [Enq 1; Take true; Enq 2; Take true; StopCommit true] in
+  accepted s = [1; 2] /\ committed s = [[1; 2]] /\ pend s = [] /\ queue s = [].
 Proof. vm_compute. auto. Qed.
